@@ -327,6 +327,11 @@ func (s *socket) onDrain() {
 	if seqFn, err := s.sentCallbackFn.Shift(); err == nil {
 		socket_log.Debug("executing batch send callback")
 		for _, fn := range seqFn {
+			// the callbacks of a session that closes first are dropped, also when
+			// it is an earlier callback of this batch that closed it
+			if s.ReadyState() == "closed" {
+				return
+			}
 			fn(s.Transport())
 		}
 	}
